@@ -125,20 +125,35 @@ class OneDSkyCoord(RegionAttribute):
             raise ValueError(f'{self.name!r} must be a 1D SkyCoord')
 
 
-class ScalarAngle(RegionAttribute):
+class QuantityAttribute(RegionAttribute):
+    """
+    Base descriptor class for attributes whose value is a
+    `~astropy.units.Quantity`.
+
+    A quantity can be updated in place (e.g., ``region.angle += 10 *
+    u.deg`` or ``region.radius *= -1``). The attribute therefore keeps
+    its own copy of the assigned value and hands out copies, so that the
+    stored value changes only through a validated assignment and is not
+    shared with other regions (e.g., the default angle of the region
+    constructors is a single object).
+    """
+
+    def __get__(self, instance, owner):
+        if instance is None:
+            return self  # pragma: no cover
+        return instance.__dict__[self.name].copy()
+
+    def __set__(self, instance, value):
+        self._validate(value)
+        instance.__dict__[self.name] = value.copy()
+
+
+class ScalarAngle(QuantityAttribute):
     """
     Descriptor class to check that value is a scalar angle, either an
     `~astropy.coordinates.Angle` or `~astropy.units.Quantity` with
     angular units.
     """
-
-    def __set__(self, instance, value):
-        self._validate(value)
-        # store an independent copy: the default angle of the region
-        # constructors is a single object, which an in-place update of
-        # one region's angle (e.g., region.angle += 10 * u.deg) would
-        # otherwise change for all regions
-        instance.__dict__[self.name] = value.copy()
 
     def _validate(self, value):
         if isinstance(value, Quantity):
@@ -151,7 +166,7 @@ class ScalarAngle(RegionAttribute):
             raise ValueError(f'{self.name!r} must be a scalar angle')
 
 
-class PositiveScalarAngle(RegionAttribute):
+class PositiveScalarAngle(QuantityAttribute):
     """
     Descriptor class to check that value is a strictly positive scalar
     angle, either an `~astropy.coordinates.Angle` or
